@@ -3,13 +3,15 @@
    2. the Go harness runs every case on the real code and writes what it observed,
    3. TLC (check configuration) steps through the observations and evaluates Ok on each; the bad ones are
       reported as <<"BAD", l>>.  A VIOLATION comes only from step 3."""
-import json, os, random, re, subprocess, tempfile, time, shutil
+import fnmatch, json, os, random, re, subprocess, tempfile, time, shutil
 
 from common import *
 
 
 def run(pid, tier, spec, replay_file=None, write=True):
     t0 = time.time()
+    if not replay_file:
+        clear_replays(pid)
     harness = build_harness()
     mod, kind = spec['module'], spec['kind']
     tmp = tempfile.mkdtemp(prefix='piketab.')
@@ -39,7 +41,7 @@ def run(pid, tier, spec, replay_file=None, write=True):
         if p.returncode != 0 or not os.path.exists(obs_path):
             raise Infra('case runner failed:\n' + p.stdout[-3000:])
         obs = open(obs_path).read().splitlines()
-        code, out = tlc(mod, cfg=mod + '_check.cfg', env={'OBS': obs_path, 'TIER': tier}, workers=1, timeout=3000,
+        code, out = tlc(mod, cfg=mod + '_check.cfg', env=dict({'OBS': obs_path, 'TIER': tier}, **spec.get('env', {})), workers=1, timeout=3000,
                         javaopts=['-Xss256m'])
         if 'CASES-COMPLETE' not in out:
             raise Infra('observation check did not complete:\n' + out[-3000:])
@@ -53,7 +55,7 @@ def run(pid, tier, spec, replay_file=None, write=True):
     for l in bad:
         o = json.loads(obs[l - 1])
         sig = sigf(o)
-        match = next((f for f in kf if f.get('signature') == sig), None)
+        match = next((f for f in kf if fnmatch.fnmatchcase(sig, f.get('signature', ''))), None)
         if match:
             known[match['id']] = match
             continue
